@@ -34,3 +34,5 @@ def SteelVerif.C01C.dead_code_never_runs_core_else := @SteelVerif.C01C.dead_code
 #print axioms SteelVerif.C01BC.word_opcodes_not_dispatched
 #print axioms SteelVerif.C01BC.word_opcodes_bad_in_model
 #print axioms SteelVerif.C01BC.reader_only_modelled
+#print axioms SteelVerif.C01BC.extended_opcodes_exist
+#print axioms SteelVerif.C01BC.extended_call_opcodes_dispatched
